@@ -110,6 +110,38 @@ CHECKS = {
              "and MachineController.boot against a recording socket and scripted clock; independent reassembly oracle.",
         ref="4 C20", technique="Coq proof (struct-format interpreter, history induction) + dumped constants/struct (T) + vm_compute datagram correspondence",
         note=TB + " OS socket and clock are explicit inputs; rig's struct-file parser is tied by correspondence only."),
+    "C11": dict(
+        text="Full. Graph distance is defined independently (least length of a walk over the six link vectors, on Z^2 or modulo "
+             "(w,h)); theorems for ALL integers and all w,h >= 1: the mesh and torus length functions (translated from source on "
+             "every run) equal that distance; the mesh/torus path vectors have exactly that many hops and reach the destination "
+             "for EVERY outcome of the random tie-breaks and spirals; longest-dimension-first walks step over the labelled link and "
+             "end at the destination; link/opposite/vector tables (dumped from the live module) are mutually consistent; "
+             "concentric_hexagons yields exactly the ball of radius R, duplicate-free, nearest ring first; refutation for the float "
+             "tie-break of the code as found. Correspondence with scripted random draws; independent BFS oracle on explicit graphs.",
+        ref="4 C11", technique="Coq proof (lia/nia over lattice translates, walk induction) + py2v translation + dumped tables + vm_compute correspondence",
+        note=TB + " random.random() is modelled as k/2^53 and randint by an arbitrary function meeting its contract."),
+    "C16": dict(
+        text="Partial by nature (numpy internals modelled from observation). Flocq binary64 model, bit-exact against the code. "
+             "Theorems for every finite x whose scaled product is finite and every format: float_to_fp equals "
+             "clamp(trunc(x * 2^n_frac)) on the real value, stays in range, is monotone, saturates, is within one lsb; round trip "
+             "for every representable value that is a double (and its refutation at 2^53+1, the known finding); the repaired "
+             "array converter equals the scalar one for 8/16/32/64 bits; the deprecated pair agrees modulo 2^n; refutations for the "
+             "two saturation defects of the code as found; error branches. Exact-rational (Fraction) oracle; bit-exact correspondence.",
+        ref="4 C16", technique="Coq proof over Flocq binary64 (Bmult_correct, rounding monotonicity) + bit-exact vm_compute correspondence",
+        note=TB + " Axioms (from Flocq/Reals, standard library): ClassicalDedekindReals.sig_forall_dec, sig_not_dec, "
+             "FunctionalExtensionality.functional_extensionality_dep, Classical_Prop.classic. numpy clip / int conversion / "
+             "out-of-range cast are modelled as observed on numpy 2.5; float32 and integer input arrays are not modelled."),
+    "C19": dict(
+        text="Full (one stated float assumption). The SpiNN-5 tiling is described independently (48-chip hexagon; Ethernet chips at "
+             "root + 12(i,j) + {(0,0),(4,8),(8,4)}); theorems for all integer coordinates, sizes and roots about the tables DUMPED "
+             "from the live module and the indexing kernels TRANSLATED from source on every run: the tiling is a partition, the "
+             "local Ethernet chip is the containing board's (tori: multiples of 12; ragged: explicit guard), the on-board "
+             "coordinate is the offset, spinn5_eth_coords lists exactly the in-range Ethernet chips once each, a link has an FPGA "
+             "number iff it leaves its board and numbers are distinct, standard dimensions are the squarest factor pair. Finite "
+             "cells by vm_compute with the bound in the statement, lifted by proved mod lemmas. Whole-machine correspondence; "
+             "oracle builds the tiling explicitly.",
+        ref="4 C19", technique="Coq proof (finite cell by computation + mod lifting) over dumped tables and py2v-translated kernels",
+        note=TB + " int(sqrt(k)) is modelled as Z.sqrt k; code vs exact arithmetic compared for every k <= 60000 (quick) / 10^6 (thorough)."),
 }
 NOT_YET = {}
 def main():
